@@ -1,6 +1,9 @@
 package main
 
 import (
+	"encoding/json"
+	"os"
+	"path/filepath"
 	"sort"
 	"strings"
 
@@ -143,7 +146,13 @@ func init() {
 		if cliEnabled() && usable && (len(text)+len(filters))%2 == 0 {
 			sess := newCliSess()
 			defer sess.close()
-			sess.writeJSON("deps.json", deps)
+			// the model is given with -d at a place of its own; coca_reporter/deps.json is a stale file of another project
+			os.MkdirAll(filepath.Join(sess.dir, "model"), 0o755)
+			data, _ := json.MarshalIndent(deps, "", "\t")
+			os.WriteFile(filepath.Join(sess.dir, "model", "deps.json"), data, 0o644)
+			sess.writeJSON("deps.json", []core_domain.CodeDataStruct{
+				{NodeName: "OldFacade", Type: "Class", Package: "org.legacy", Extend: "org.legacy.OldBase"},
+				{NodeName: "OldBase", Type: "Class", Package: "org.legacy"}})
 			idents := []core_domain.CodeDataStruct{}
 			for _, k := range in.Nth(1).StrList() {
 				i := strings.LastIndex(k, ".")
@@ -154,8 +163,8 @@ func init() {
 				}
 			}
 			sess.writeJSON("identify.json", idents)
-			sess.run("arch", "-d", "coca_reporter/deps.json", "-x", "")
-			args := []string{"arch", "-d", "coca_reporter/deps.json", "-x", strings.Join(filters, ",")}
+			sess.run("arch", "-d", "model/deps.json", "-x", "")
+			args := []string{"arch", "-d", "model/deps.json", "-x", strings.Join(filters, ",")}
 			if kind == "header" || kind == "both" {
 				args = append(args, "-H")
 			}
